@@ -1396,6 +1396,31 @@ impl<'a, 'b, 'ast> Visit<'ast> for Collector<'a, 'b> {
                     self.edits.push((sp.start, sp.end, text));
                 }
             }
+            Expr::ForLoop(w) if rw.for_iter && matches!(&*w.expr, Expr::MethodCall(c) if c.method == "iter_mut" && c.args.is_empty() && matches!(&*c.receiver, Expr::Path(_))) && matches!(&*w.pat, syn::Pat::Ident(_)) => {
+                // R41 (option for_iter=1): `for v in X.iter_mut() { B }` on a Vec held in a variable (B does not touch X otherwise) -> the index loop
+                //   `{ let mut k = 0; while k < X.len() { { let v = &mut X[k]; B } k += 1; } }`   (slice::IterMut yields &mut X[0], &mut X[1], .. in order)
+                self.record_header(e, &w.body);
+                let idx = rw.loop_idx.get();
+                rw.loop_idx.set(idx + 1);
+                if let Expr::MethodCall(c) = &*w.expr {
+                    let x = rw.render_expr(&c.receiver);
+                    let pat = rw.src[w.pat.span().byte_range()].trim().to_string();
+                    let inv = rw.section(&format!("loop {idx}")).map(|t| mark(t)).unwrap_or_default();
+                    let mut cc = Collector { rw, edits: vec![] };
+                    for st in &w.body.stmts { cc.visit_stmt(st); }
+                    let br = w.body.span().byte_range();
+                    let inner = apply_edits(rw.src, (br.start + 1)..(br.end - 1), cc.edits);
+                    let begin = rw.section(&format!("loop {idx} begin")).map(|t| format!("proof {{ //@p\n{}\n}} //@p\n", mark(t))).unwrap_or_default();
+                    let begin = format!("{}{}", rw.section(&format!("loop {idx} begin-raw")).map(|t| format!("{}\n", mark(t))).unwrap_or_default(), begin);
+                    let end = rw.section(&format!("loop {idx} end")).map(|t| format!("proof {{ //@p\n{}\n}} //@p\n", mark(t))).unwrap_or_default();
+                    let after = rw.section(&format!("loop {idx} after")).map(|t| format!("proof {{ //@p\n{}\n}} //@p\n", mark(t))).unwrap_or_default();
+                    let before = rw.section(&format!("loop {idx} before")).map(|t| format!("proof {{ //@p\n{}\n}} //@p\n", mark(t))).unwrap_or_default();
+                    let text = format!("(); {{ let mut __k{idx}: usize = 0;\n{before}while __k{idx} < {x}.len()\n{inv}\n{{ {begin}{{ let {pat} = &mut {x}[__k{idx}];\n{inner} }}\n{end} __k{idx} += 1; }}\n{after} }}");
+                    rw.count("R41");
+                    let sp = e.span().byte_range();
+                    self.edits.push((sp.start, sp.end, text));
+                }
+            }
             Expr::ForLoop(w) if rw.for_iter => {
                 // R18 (option for_iter=1): `for P in E { B }` over a non-range iterator -> the desugaring the language defines,
                 //   `{ let mut it = E.into_iter(); loop { match it.next() { Some(P) => { B } None => { break; } } } }`
